@@ -6,7 +6,8 @@ time.time(), MONO = time.monotonic(), the adapter clock = union over all get_now
 (R2) attempt accounting: the count handed to the policy, reported in the failure events and
 carried by the retry is attempts+1 starting from 0; stop_after_attempt(n) evaluated on that
 sequence executes max(n,1) times (finite AST evaluation for n = -1..6); retry_info numbers
-0,1,2…; (R3) a policy answer of None never re-queues the failed event.
+0,1,2…; the bookkeeping of an execution travels only with the re-queue of its own event to its own
+step; (R3) a policy answer of None never re-queues the failed event.
 Not decided: that the measured number equals the time that really passed.
 """
 
@@ -245,6 +246,22 @@ def run(chk) -> None:
     # no other re-queue of the failed input event in the failure branch
     other = [c for c in ast.walk(sr) if isinstance(c, ast.Call) and last(call_name(c)) == "CommandQueueEvent" and kwarg(c, "delay") is None and kwarg(c, "event") is not None and ast.unparse(kwarg(c, "event")) == "tick.event"]
     chk.ob("C05.R3", "no undelayed re-queue of the failed input event exists", not other, m=ms, node=other[0] if other else sr, fn=sr, instance="retry:no-other-requeue", reason="the failed input event is queued again outside the retry branch")
+    # the retry bookkeeping of an execution travels only with a re-queue of that execution's own event to its own step: every
+    # other queued event (a result routed on, a StepFailedEvent for a @catch_error handler, a resumed waiter) starts a fresh
+    # execution with a budget of its own
+    BOOK = ("attempts", "first_attempt_at", "last_exception", "last_failed_at")
+    allq = [c for c in ast.walk(sr) if isinstance(c, ast.Call) and last(call_name(c)) == "CommandQueueEvent"]
+    chk.floor("C05.R2", "CommandQueueEvent constructions in the step-result reducer", len(allq), 2)
+    for c in allq:
+        carried = [k for k in BOOK if kwarg(c, k) is not None and not (isinstance(kwarg(c, k), ast.Constant) and kwarg(c, k).value in (None, 0))]
+        if not carried:
+            continue
+        ev, sn = kwarg(c, "event", 0), kwarg(c, "step_name")
+        same = ev is not None and ast.unparse(expand(ev, c, depth=2)) == "tick.event" and sn is not None and ast.unparse(expand(sn, c, depth=2)) == "tick.step_name"
+        chk.ob("C05.R2", "retry bookkeeping (attempts, first attempt time, last failure) is carried only by the re-queue of the same event to the same step", same, m=ms, node=c, fn=sr,
+               instance=f"accounting:bookkeeping-scope:{'retry' if same else ast.unparse(sn) if sn is not None else 'other'}",
+               reason=f"CommandQueueEvent(event={ast.unparse(ev) if ev is not None else None}, step_name={ast.unparse(sn) if sn is not None else None}) carries {carried} of the failed execution: "
+                      f"the receiving step starts with another step's attempt count, first-attempt time and last exception (retry_info(), stop conditions and the failure report count from there)")
     # delay None when no policy
     _, add = repo.func(f"{CL}:_add_or_enqueue_event")
     ips = [c for c in ast.walk(add) if isinstance(c, ast.Call) and last(call_name(c)) == "InProgressState"]
@@ -329,6 +346,7 @@ _SF = "packages/llama-index-workflows/src/workflows/runtime/types/step_function.
 _IC = "packages/llama-index-workflows/src/workflows/context/internal_context.py"
 _RP = "packages/llama-index-workflows/src/workflows/retry_policy.py"
 TWINS = [
+    Twin("handler execution inherits the failed step's bookkeeping", _P, "                            event=step_failed_event,\n                            step_name=handler.step_name,\n", "                            event=step_failed_event,\n                            step_name=handler.step_name,\n                            attempts=this_execution.attempts + 1,\n                            first_attempt_at=this_execution.first_attempt_at,\n", "C05.R2"),
     Twin("step stamps monotonic", _SF, "StepWorkerFailed(exception=e, failed_at=time.time())", "StepWorkerFailed(exception=e, failed_at=time.monotonic())", "C05.R1"),
     Twin("retry_info monotonic", _IC, "elapsed = max(0.0, time.time() - retry.first_attempt_at)", "elapsed = max(0.0, time.monotonic() - retry.first_attempt_at)", "C05.R1"),
     Twin("policy told attempts", _P, "            failures = this_execution.attempts + 1\n", "            failures = this_execution.attempts\n", "C05.R2"),
